@@ -89,3 +89,20 @@ func timing(name string) func() {
 	t0 := time.Now()
 	return func() { fmt.Fprintf(os.Stderr, "  %s: %.2fs\n", name, time.Since(t0).Seconds()) }
 }
+
+func dumpConds(p *Prog, pat string) {
+	for _, fn := range p.Funcs {
+		if !strings.Contains(fnName(fn), pat) {
+			continue
+		}
+		fi := p.Info(fn)
+		for _, b := range fn.Blocks {
+			if !fi.Reach[b.Index] {
+				continue
+			}
+			if iff, ok := b.Instrs[len(b.Instrs)-1].(*ssa.If); ok {
+				fmt.Printf("block %d: IF %s\n    BF: %s\n", b.Index, fi.Sym(iff.Cond), fi.valueBF(iff.Cond, 0))
+			}
+		}
+	}
+}
